@@ -1,48 +1,187 @@
 """Which obligations decide which property.
 
 For every property: the builds to generate, the modules to verify in each, and selectors (module regex, function
-regex) naming the functions whose obligations serve the property.  `kinds` restricts which failure kinds count for
-the property (None = all code-level kinds).  Kani harness lists are in kani/harnesses.py.
+regex) naming the functions whose obligations serve the property.  A function name is `Type::fn`, `fn`, or
+`outer_fn::nested_fn`.  `kinds` restricts which failure kinds count for the property.
 """
 
-G = r'arch::generic::memchr'
-X86 = r'arch::x86_64::(sse2|avx2)::memchr'
-SWAR = r'arch::all::memchr'
-TOP = r'memchr'
-LEAF = [(r'^ext$', r'.*'), (r'^vector(::.*)?$', r'.*'), (r'^vbase$', r'.*')]
+# ---- module regexes
+G = r'^arch::generic::memchr$'
+X86 = r'^arch::x86_64::(sse2|avx2)::memchr$'
+SWAR = r'^arch::all::memchr$'
+DISP = r'^arch::x86_64::memchr$'
+TOP = r'^memchr$'
+EQ = r'^arch::all$'
+RK = r'^arch::all::rabinkarp$'
+TW = r'^arch::all::twoway$'
+APP = r'^arch::all::packedpair(::default_rank)?$'
+GPP = r'^arch::generic::packedpair$'
+XPP = r'^arch::x86_64::(sse2|avx2)::packedpair$'
+PRE = r'^memmem::searcher$'
+MM = r'^memmem$'
+COW = r'^cow$'
+LEAF = [(r'^ext$', r'.*'), (r'^vector$', r'.*'), (r'^vbase$', r'.*')]
+LEMMAS = r'(lemma_.*|hint\d?|rhint\d?|nohint|nohit\d?)'
 
-FWD = r'(new|new_unchecked|is_available|needle\d|clone|find|find_raw|find_raw_impl|find_raw_sse2|find_raw_avx2|search_chunk|has_needle|confirm|try_new)'
-REV = r'(new|new_unchecked|is_available|needle\d|clone|rfind|rfind_raw|rfind_raw_impl|rfind_raw_sse2|rfind_raw_avx2|search_chunk|has_needle|confirm|try_new)'
-CNT = r'(new|new_unchecked|is_available|needle\d|clone|count|count_raw|count_raw_impl|count_raw_sse2|count_raw_avx2|confirm)'
-ITER = r'(iter|next|next_back|size_hint|count|new|into_owned)'
+S = r'(One|Two|Three)::'
+COMMON = r'(new|new_unchecked|is_available|try_new|needle[123]|clone|has_needle|confirm|search_chunk)'
+FWD = S + r'(' + COMMON + r'|find|find_raw|find_raw_impl|find_raw_sse2|find_raw_avx2)'
+REV = S + r'(' + COMMON + r'|rfind|rfind_raw|rfind_raw_impl|rfind_raw_sse2|rfind_raw_avx2)'
+CNT = r'One::(' + COMMON + r'|count|count_raw|count_raw_impl|count_raw_sse2|count_raw_avx2)'
+ITERS = r'(OneIter|TwoIter|ThreeIter|Iter|Memchr|Memchr2|Memchr3)::.*'
 
-MEMKINDS = ('precondition',)       # filtered further by clause text (memory-model preconditions)
-PANICKINDS = ('arithmetic', 'bounds', 'assertion', 'precondition', 'recommends')
+FUNCTIONAL = ('postcondition', 'precondition', 'trait-contract', 'invariant', 'decreases')
+PANIC = ('arithmetic', 'bounds', 'assertion', 'recommends', 'precondition', 'decreases')
+
+MAIN_MODS_MEMCHR = ['ext', 'vector', 'vbase', 'arch::generic::memchr', 'arch::x86_64::sse2::memchr', 'arch::x86_64::avx2::memchr',
+                    'arch::all::memchr', 'arch::x86_64::memchr', 'memchr']
+MAIN_MODS_SUB = ['ext', 'vector', 'vbase', 'arch::all', 'arch::all::rabinkarp', 'arch::all::twoway', 'arch::all::packedpair',
+                 'arch::generic::packedpair', 'arch::x86_64::sse2::packedpair', 'arch::x86_64::avx2::packedpair',
+                 'memmem::searcher', 'x_pp', 'x_eqrk', 'x_tw']
+
+SEL_C01 = LEAF + [(G, FWD), (G, r'(fwd_byte_by_byte|search_slice_with_raw)'), (G, LEMMAS), (X86, FWD), (X86, LEMMAS),
+                  (SWAR, FWD), (SWAR, r'(splat|has_zero_byte|LO|HI)'), (SWAR, LEMMAS),
+                  (DISP, r'memchr[23]?_raw(::.*)?'), (TOP, r'(memchr[23]?|memchr[23]?_raw)')]
+SEL_C02 = LEAF + [(G, REV), (G, r'(rev_byte_by_byte|search_slice_with_raw)'), (G, LEMMAS), (X86, REV), (X86, LEMMAS),
+                  (SWAR, REV), (SWAR, r'(splat|has_zero_byte|LO|HI)'), (SWAR, LEMMAS),
+                  (DISP, r'memrchr[23]?_raw(::.*)?'), (TOP, r'(memrchr[23]?|memrchr[23]?_raw)')]
+SEL_C07 = LEAF + [(G, CNT), (G, r'(count_byte_by_byte|count_hits|Iter::count)'), (G, LEMMAS), (X86, CNT), (X86, r'OneIter::count'),
+                  (X86, LEMMAS), (SWAR, CNT), (SWAR, r'OneIter::count'), (SWAR, LEMMAS), (DISP, r'count_raw(::.*)?'),
+                  (TOP, r'(count_raw|Memchr::count)')]
+SEL_C06 = LEAF + [(G, r'Iter::.*'), (X86, ITERS), (X86, S + r'iter'), (SWAR, ITERS), (SWAR, S + r'iter'),
+                  (TOP, r'(Memchr|Memchr2|Memchr3)::.*'), (TOP, r'memchr[23]?_iter'), (r'^hist$', r'.*')]
+PTR_MODS = [G, X86, SWAR, DISP, TOP, EQ, RK, GPP, XPP, APP, r'^ext$', r'^vector$']
+SEL_C05 = [(m, r'.*') for m in PTR_MODS]
+SEL_RK_F = [(RK, r'(Finder::(new|find|find_raw)|Hash::.*|is_fast|is_equal_raw)'), (RK, LEMMAS), (EQ, r'.*')]
+SEL_RK_R = [(RK, r'(FinderRev::(new|rfind|rfind_raw)|Hash::.*|is_fast|is_equal_raw)'), (RK, LEMMAS), (EQ, r'.*')]
+SEL_PP_FIND = [(GPP, r'Finder::(new|find|find_in_chunk|matched|min_haystack_len|pair)'), (GPP, LEMMAS), (XPP, r'Finder::(new|with_pair|with_pair_impl|find|find_impl|min_haystack_len|pair|is_available)'),
+               (r'^x_pp$', r'.*'), (EQ, r'.*')]
+SEL_PP_PRE = [(GPP, r'Finder::(new|find_prefilter|find_prefilter_in_chunk|matched|min_haystack_len|pair)'), (GPP, LEMMAS),
+              (XPP, r'Finder::(new|with_pair|with_pair_impl|find_prefilter|find_prefilter_impl|min_haystack_len|pair|is_available)'),
+              (APP, r'Finder::(new|with_pair|find_prefilter|pair)'), (APP, r'Pair::(index1|index2)'), (r'^x_pp$', r'.*'),
+              (PRE, r'Prefilter::find_simple')]
+SEL_TW_F = [(TW, r'(Finder::.*|Shift::forward|Suffix::forward|SuffixKind::cmp|ApproximateByteSet::.*|TwoWay::.*)'), (TW, LEMMAS),
+            (PRE, r'(Pre|PrefilterState)::.*'), (EQ, r'(is_prefix|is_equal|is_equal_raw)')]
+SEL_TW_R = [(TW, r'(FinderRev::.*|Shift::reverse|Suffix::reverse|SuffixKind::cmp|ApproximateByteSet::.*|TwoWay::.*)'), (TW, LEMMAS),
+            (EQ, r'(is_suffix|is_equal|is_equal_raw)')]
+SEL_MM_F = [(MM, r'(find|find_iter|Finder::.*|FinderBuilder::.*)'), (COW, r'.*'), (r'^x_memmem$', r'.*'), (PRE, r'.*')]
+SEL_MM_R = [(MM, r'(rfind|rfind_iter|FinderRev::.*|FinderBuilder::build_reverse)'), (COW, r'.*'), (r'^x_memmem$', r'.*'),
+            (PRE, r'SearcherRev::.*')]
+
+A_TW = 'A6 Two-Way completeness (no occurrence skipped) is NOT proved: assumed in the memmem build (stub_twoway), backed only by bounded Kani harnesses (needle<=4/haystack<=7 quick, <=5/<=9 thorough)'
+A_GLUE = 'A6 the union + fn-pointer meta searcher (Searcher, Prefilter::find) is represented by an assumed contract; the real glue is executed only by the bounded Kani glue harnesses'
+A_DISP = 'A2 unsafe_ifunc! dispatcher: finally calls one of find_avx2/find_sse2/find_fallback (each verified) with the same arguments (rule X6; AtomicPtr/transmute/cpuid not verified)'
+A_LEAF = 'A3 x86 Vector leaf impls are external_body in Verus; closed by loop-free full-domain Kani harnesses (trusting Kani\'s SSE2/AVX2 intrinsic models); NEON/wasm32 backends are not covered'
+A_CTOR = 'Rabin-Karp constructors, Pair::with_ranker, ApproximateByteSet::new use iterator adapters outside Verus\' language: contract assumed (external_body), backed by bounded Kani harnesses'
+
+K_LEAF = [dict(name='leaf_sse2'), dict(name='leaf_avx2'), dict(name='leaf_sse2_aligned_load'), dict(name='leaf_avx2_aligned_load')]
+K_POP = [dict(name='leaf_count_ones_spec')]
+K_TW_F = [dict(name='bounded_twoway_fwd_n4_h7', bounded=True, bound='needle<=4, haystack<=7, all byte values', timeout=900),
+          dict(name='bounded_twoway_fwd_n5_h9', bounded=True, bound='needle<=5, haystack<=9', tier='thorough', timeout=7200)]
+K_TW_R = [dict(name='bounded_twoway_rev_n4_h7', bounded=True, bound='needle<=4, haystack<=7, all byte values', timeout=900),
+          dict(name='bounded_twoway_rev_n5_h9', bounded=True, bound='needle<=5, haystack<=9', tier='thorough', timeout=7200)]
+K_RK_F = [dict(name='bounded_rabinkarp_fwd_n4_h8', bounded=True, bound='needle<=4, haystack<=8', timeout=900)]
+K_RK_R = [dict(name='bounded_rabinkarp_rev_n4_h8', bounded=True, bound='needle<=4, haystack<=8', timeout=900)]
+K_SO = [dict(name='bounded_shiftor_n4_h8', bounded=True, bound='needle<=4, haystack<=8', timeout=900),
+        dict(name='bounded_shiftor_unsupported_len', bounded=True, bound='needle<=17', timeout=900)]
+K_PAIR = [dict(name='bounded_pair_with_ranker_n24', bounded=True, bound='needle<=24, fully symbolic 256-entry ranker', timeout=900)]
+K_GLUE = [dict(name='bounded_glue_sse2_n2_h19', bounded=True, bound='needle<=2, haystack<=19, symbolic ranker and PrefilterConfig, AVX2 stubbed off', timeout=1500),
+          dict(name='bounded_glue_fallback_n2_h19', bounded=True, bound='needle<=2, haystack<=19, SSE2+AVX2 stubbed off', tier='thorough', timeout=1500)]
+K_GLUE_R = [dict(name='bounded_glue_rev_n3_h6', bounded=True, bound='needle<=3, haystack<=6', timeout=900)]
 
 PROPS = {
-    'C01': dict(
-        level='proof',
-        builds=[dict(build='main', modules=['ext', 'vector', 'arch::generic::memchr', 'arch::x86_64', 'arch::all::memchr', 'memchr'],
-                     select=LEAF + [(G, r'(One|Two|Three)::' + FWD), (G, r'(fwd_byte_by_byte|search_slice_with_raw|hint\d?|nohint|nohit\d|lemma_.*)'),
-                                    (X86, r'(One|Two|Three)::' + FWD), (SWAR, r'(One|Two|Three)::' + FWD), (SWAR, r'(splat|has_zero_byte|lemma_.*)'),
-                                    (r'^memchr$', r'(memchr|memchr2|memchr3|memchr_raw|memchr2_raw|memchr3_raw)'),
-                                    (r'arch::x86_64::memchr', r'(memchr|memchr2|memchr3)_raw.*')])],
-        kinds=('postcondition', 'precondition', 'trait-contract', 'invariant', 'decreases'),
-    ),
-    'C02': dict(
-        level='proof',
-        builds=[dict(build='main', modules=['ext', 'vector', 'arch::generic::memchr', 'arch::x86_64', 'arch::all::memchr', 'memchr'],
-                     select=LEAF + [(G, r'(One|Two|Three)::' + REV), (G, r'(rev_byte_by_byte|search_slice_with_raw|rhint\d?|nohint|nohit\d|lemma_.*)'),
-                                    (X86, r'(One|Two|Three)::' + REV), (SWAR, r'(One|Two|Three)::' + REV), (SWAR, r'(splat|has_zero_byte|lemma_.*)'),
-                                    (r'^memchr$', r'(memrchr|memrchr2|memrchr3|memrchr_raw|memrchr2_raw|memrchr3_raw)'),
-                                    (r'arch::x86_64::memchr', r'(memrchr|memrchr2|memrchr3)_raw.*')])],
-        kinds=('postcondition', 'precondition', 'trait-contract', 'invariant', 'decreases'),
-    ),
+    'C01': dict(level='proof', kinds=FUNCTIONAL, kani=K_LEAF,
+                builds=[dict(build='main', modules=MAIN_MODS_MEMCHR, select=SEL_C01)],
+                assumptions=[A_DISP, A_LEAF]),
+    'C02': dict(level='proof', kinds=FUNCTIONAL, kani=K_LEAF,
+                builds=[dict(build='main', modules=MAIN_MODS_MEMCHR, select=SEL_C02)],
+                assumptions=[A_DISP, A_LEAF]),
+    'C03': dict(level='other', kinds=FUNCTIONAL, kani=K_TW_F + K_RK_F + K_GLUE,
+                builds=[dict(build='memmem', modules=['memmem', 'cow', 'x_memmem'], select=SEL_MM_F),
+                        dict(build='main', modules=MAIN_MODS_SUB + ['memchr', 'arch::generic::memchr'],
+                             select=SEL_RK_F + SEL_PP_FIND + SEL_TW_F + [(TOP, r'memchr')])],
+                explanation='hybrid: Verus proves the front end (memmem::find, Finder::find, builders) against assumed searcher contracts, and '
+                            'proves the blocks (Rabin-Karp search = leftmost, packed-pair find = leftmost, Two-Way soundness/no-panic); Two-Way '
+                            'completeness, constructors with iterator adapters and the union/fn-pointer glue are BOUNDED Kani harnesses',
+                assumptions=[A_TW, A_GLUE, A_CTOR, A_LEAF]),
+    'C04': dict(level='other', kinds=FUNCTIONAL, kani=K_TW_R + K_RK_R + K_GLUE_R,
+                builds=[dict(build='memmem', modules=['memmem', 'cow', 'x_memmem'], select=SEL_MM_R),
+                        dict(build='main', modules=MAIN_MODS_SUB, select=SEL_RK_R + SEL_TW_R)],
+                explanation='hybrid as C03 for the reverse direction; SearcherRev (a plain enum) is proved in Verus against the block contracts',
+                assumptions=[A_TW, A_CTOR]),
+    'C05': dict(level='proof', kinds=('precondition',), mem_only=True, kani=K_LEAF,
+                builds=[dict(build='main', modules=MAIN_MODS_MEMCHR + MAIN_MODS_SUB, select=SEL_C05),
+                        dict(build='safe', modules=None, select=SEL_C05)],
+                explanation='every read/read_unaligned/load_*/add/sub/offset/offset_from in the extracted units carries a readable-range / '
+                            'in-bounds / alignment precondition (prelude/vbase.vrs) that Verus discharges at each call site; the packed-pair '
+                            'finders are additionally verified in the S variant (release semantics, type invariant only, any needle)',
+                assumptions=[A_DISP, A_LEAF, 'Two-Way and Shift-Or use safe indexing only (no pointer obligations); Shift-Or is not extracted']),
+    'C06': dict(level='proof', kinds=FUNCTIONAL, kani=[],
+                builds=[dict(build='main', modules=MAIN_MODS_MEMCHR + ['hist'], select=SEL_C06)],
+                explanation='per-operation window contracts on the real next/next_back/size_hint/count + a spec-level history machine '
+                            '(prelude/hist.vrs) whose inductive lemmas give freshness, order, completeness and fusedness for every call order',
+                assumptions=['std Iterator/DoubleEndedIterator trait headers dropped (X7): methods verified as inherent fns', A_DISP]),
+    'C07': dict(level='proof', kinds=FUNCTIONAL, kani=K_LEAF + K_POP,
+                builds=[dict(build='main', modules=MAIN_MODS_MEMCHR, select=SEL_C07)],
+                assumptions=[A_DISP, A_LEAF, 'u32::count_ones spec (popcount32) assumed in Verus, cross-checked by Kani harness leaf_count_ones_spec']),
+    'C08': dict(level='other', kinds=FUNCTIONAL, kani=[],
+                builds=[dict(build='memmem', modules=['memmem', 'x_memmem'],
+                             select=[(MM, r'(FindIter|FindRevIter)::.*'), (MM, r'(find_iter|rfind_iter)'), (MM, r'(Finder|FinderRev)::(find_iter|rfind_iter)'),
+                                     (r'^x_memmem$', r'.*')])],
+                explanation='Verus proves FindIter/FindRevIter next and size_hint equal the greedy sequence, for every PrefilterState, against the '
+                            'assumed Searcher / SearcherRev contracts (C03/C04 decide those)',
+                assumptions=[A_GLUE, A_TW]),
+    'C09': dict(level='proof', kinds=FUNCTIONAL, kani=K_LEAF,
+                builds=[dict(build='main', modules=MAIN_MODS_MEMCHR, select=SEL_C01 + SEL_C02 + SEL_C07)],
+                explanation='corollary: SWAR, SSE2 and AVX2 implementations and all three dispatcher targets are proved against the same '
+                            'functional specification whose answer is unique',
+                assumptions=[A_DISP, A_LEAF, 'NEON and wasm32 simd128 wrappers/Vector impls are not extracted in this version (host cannot compile them); the '
+                                             'generic algorithm they instantiate is proved for every V: Vector satisfying the trait contract']),
+    'C10': dict(level='other', kinds=FUNCTIONAL, kani=K_GLUE,
+                builds=[dict(build='memmem', modules=['memmem', 'x_memmem'], select=[(MM, r'(Finder::find|FindIter::next|FinderBuilder::.*)'), (PRE, r'(Pre|PrefilterState)::.*')]),
+                        dict(build='main', modules=MAIN_MODS_SUB, select=[(TW, r'Finder::(find_with_prefilter|find_small_imp|find_large_imp)'), (PRE, r'.*')])],
+                explanation='the assumed Searcher contract mentions neither PrefilterConfig, ranker nor PrefilterState (holds for all); Two-Way '
+                            'with a prefilter is proved sound/no-panic for every prefilter answer; bounded Kani runs the real glue with a fully '
+                            'symbolic ranker table and symbolic config',
+                assumptions=[A_GLUE, A_TW]),
+    'C11': dict(level='proof', kinds=FUNCTIONAL, kani=K_LEAF,
+                builds=[dict(build='main', modules=MAIN_MODS_SUB + ['arch::all::memchr', 'memchr', 'arch::generic::memchr'], select=SEL_PP_PRE)],
+                assumptions=[A_LEAF, 'the fn-pointer hop Prefilter::find -> prefilter_kind_* is glue (bounded Kani only)']),
+    'C12': dict(level='other', kinds=FUNCTIONAL, kani=K_TW_F + K_TW_R + K_RK_F + K_RK_R + K_SO,
+                builds=[dict(build='main', modules=MAIN_MODS_SUB, select=SEL_RK_F + SEL_RK_R + SEL_PP_FIND + SEL_TW_F + SEL_TW_R)],
+                explanation='per block: packed-pair find and Rabin-Karp search are proved equal to leftmost/rightmost; Two-Way soundness, '
+                            'no-panic, termination proved, completeness BOUNDED; Shift-Or BOUNDED; constructors BOUNDED',
+                assumptions=[A_TW, A_CTOR, A_LEAF]),
+    'C14': dict(level='proof', kinds=PANIC, non_mem=True, kani=K_PAIR,
+                builds=[dict(build='main', modules=MAIN_MODS_MEMCHR + MAIN_MODS_SUB, select=[(r'.*', r'.*')]),
+                        dict(build='memmem', modules=['memmem', 'cow', 'x_memmem'], select=[(MM, r'.*'), (COW, r'.*'), (PRE, r'.*')])],
+                explanation='every debug_assert (X3), assert (X4, pinned to the documented precondition both ways), index, slice, subtraction, '
+                            'shift and unwrap in the extracted units is an obligation discharged by Verus',
+                assumptions=[A_CTOR, 'Shift-Or and the union/fn-pointer glue are covered by bounded Kani only']),
+    'C16': dict(level='other', kinds=FUNCTIONAL, kani=[],
+                builds=[dict(build='memmem', modules=['memmem', 'cow', 'x_memmem'], select=[(MM, r'(Finder|FinderRev|FindIter|FindRevIter)::.*'), (COW, r'.*')])],
+                explanation='the result is determined by (needle, haystack) because Finder::find creates a fresh PrefilterState and the searcher '
+                            'contract is universally quantified over it; as_ref/into_owned/needle contracts proved; derived Clone on the '
+                            'front-end types carries no Verus spec (not covered)',
+                assumptions=[A_GLUE, 'Box<[u8]>::from(&[u8]) content spec assumed']),
+    'C18': dict(level='proof', kinds=FUNCTIONAL + ('arithmetic',), kani=[],
+                builds=[dict(build='main', modules=['ext', 'vbase', 'arch::all'], select=[(EQ, r'.*'), (r'^ext$', r'.*'), (r'^vbase$', r'.*')])],
+                assumptions=[]),
+    'C19': dict(level='other', kinds=FUNCTIONAL + ('assertion',), kani=K_PAIR,
+                builds=[dict(build='main', modules=MAIN_MODS_SUB, select=[(APP, r'(Pair::.*|Finder::(new|with_pair|pair))'),
+                                                                          (GPP, r'Finder::(new|pair|min_haystack_len)'),
+                                                                          (XPP, r'Finder::(new|with_pair|with_pair_impl|pair|min_haystack_len)')])],
+                explanation='Pair::with_indices, accessors and the finders\' new/pair/min_haystack_len are proved; Pair::new is proved against '
+                            'the ASSUMED contract of Pair::with_ranker (iterator adapters), which a BOUNDED Kani harness checks with a fully '
+                            'symbolic ranker for needles up to 24 bytes',
+                assumptions=[A_CTOR]),
 }
 
 COMMON_ASSUMPTIONS = [
     'A1 pointer/memory model of prelude/vbase.vrs: address = integer, provenance ignored, memory reachable through the given slices is immutable during a call',
     'A4 little-endian composition of multi-byte unaligned loads; usize = 64 bit',
     'A5 std specs assumed in the prelude (assume_specification items listed in trusted_base)',
-    'A7 the extractor rules X1-X12 (tool/xform.py) preserve semantics; Verus, Z3 are trusted',
+    'A7 the extractor rules X0-X12 (tool/xform.py) preserve semantics; Verus, Z3, Kani, CBMC are trusted',
 ]
+
+TITLES = {}
